@@ -301,10 +301,10 @@ def run_check(pid, tier, seed, replay_path=None):
           "crosscheck %d paths, %.1fs" % (pid, tier, n_ob, n_dis, ev["coverage"]["refuted_known_findings"],
                                          len(violations), len(undecided), unit_count, path_count, cross["paths_checked"],
                                          time.time() - t0))
-    if errors:
-        return 3
     if violations:
         return 1
+    if errors:
+        return 3
     if undecided:
         return 2
     if n_ob == 0 and not bounded_reports:
